@@ -77,7 +77,8 @@ def r131(prog, chk):
     for c in apps:
         fs = facts(prog, fl_fn, c)
         ok = len(c.args) == 2 and T(c.args[1]) == ret and any(o == "truthy" and l == "skipExportGlyphs" for o, l, r in fs) \
-            and T(c.func.args[0]) == "skipExportGlyphs" and prog.cfg(fl_fn).dominates(0, 0)
+            and T(c.func.args[0]) == "skipExportGlyphs" and prog.cfg(fl_fn).dominates(0, 0) \
+            and all(d.kind == "param" for d in prog.reaching(fl_fn, "skipExportGlyphs", c.func.args[0]))
         cfg = prog.cfg(fl_fn)
         # no other exit when skipExportGlyphs is truthy: the application dominates nothing else needed,
         # but it must precede the return
@@ -93,6 +94,12 @@ def r131(prog, chk):
     r = runs[0]
     fs = facts(prog, ib, r)
     arg_ok = r.args[0].args and isinstance(r.args[0].args[0], ast.Name) and r.args[0].args[0].id in ib.params()
+    # ... the argument as it was handed in: a set narrowed on the way (e.g. to the default source's glyphs) leaves skipped glyphs
+    # of the other sources in their masters
+    untouched = bool(arg_ok) and all(d.kind == "param" for d in prog.reaching(ib, r.args[0].args[0].id, r.args[0].args[0]))
+    chk.ob("R13.1", key(ib, "the skip set reaches the filter as it was handed in"), untouched, where(ib, r), detail="parameter not rebound before SkipExportGlyphsIFilter(...)",
+           message=f"{ib.short} rebinds the skip list before it reaches SkipExportGlyphsIFilter: names dropped from it (glyphs that only exist in a non-default source, say) "
+                   f"are exported in the masters that have them")
     # every normally-completing path on which the argument is truthy runs the stage
     rn0 = cfg.node_of(r)
     guard_ok = arg_ok and not any(
@@ -632,6 +639,9 @@ def r138(prog, chk):
 
 
 MUTANTS = [
+    M("skip list narrowed to the default source's glyphs before the interpolatable filter runs (seeded C13k)", "ufo2ft/preProcessor.py", "BaseInterpolatablePreProcessor.__init__",
+      "if skipExportGlyphs:\n    from ufo2ft.filters.skipExportGlyphs import SkipExportGlyphsIFilter\n    self._run(SkipExportGlyphsIFilter(skipExportGlyphs))",
+      "if skipExportGlyphs and instantiator is not None:\n    skipExportGlyphs = instantiator.glyph_names & set(skipExportGlyphs)\nif skipExportGlyphs:\n    from ufo2ft.filters.skipExportGlyphs import SkipExportGlyphsIFilter\n    self._run(SkipExportGlyphsIFilter(skipExportGlyphs))", rule="R13.1"),
     M("include narrowed to the direct references before it reaches the pen (seeded C13j)", "ufo2ft/util.py", "decomposeCompositeGlyph",
       "if len(glyph.components) == 0:\n    return", "if len(glyph.components) == 0:\n    return\nif include is not None:\n    include = {c.baseGlyph for c in glyph.components if c.baseGlyph in include}", rule="R13.9"),
     M("default master's lib copied over the designspace's skip list (seeded C13g)", "ufo2ft/instantiator.py", "Instantiator.generate_instance",
